@@ -43,3 +43,16 @@ def auto_index_label_not_validated(w):
     errs = [(k.get('row_error'), k.get('row_kind')), (k.get('col_error'), k.get('col_kind'))]
     bad = [(e, kind) for e, kind in errs if e]
     return bool(bad) and all(e == 'absent' and kind == 'auto' for e, kind in bad)
+
+
+def _load_extra():
+    """Per-property predicate modules sfmon/findings_cXX.py register themselves on import."""
+    import glob
+    import importlib
+    import os
+    here = os.path.dirname(os.path.abspath(__file__))
+    for path in sorted(glob.glob(os.path.join(here, 'findings_c*.py'))):
+        importlib.import_module('sfmon.' + os.path.basename(path)[:-3])
+
+
+_load_extra()
